@@ -18,6 +18,10 @@
 //!                  facts are compared (the client is told - CONNECTION_CLOSE from the application -,
 //!                  `completion()` returns, `Core::listen` ends with Ok), each with a generous budget,
 //!                  and "not yet" facts only where the code under test cannot move without the harness.
+//! `--mode locks`   the directed schedule of `spec/QuicLocks.tla` on a real HTTP/3 session with a download in
+//!                  flight: sync-point hooks park `QuicSocket::graceful_shutdown` (session task) and
+//!                  `QuicSocket::write` (download task) so that each has taken its first mutex before either
+//!                  asks for its second. Both must finish (client told, `completion()` returns).
 //! `--mode probe`   development aid: run hand-written scripts (`--script file`) and print what is observed.
 //!
 //! All expected values come out of TLC (`post` of every step).
@@ -81,6 +85,11 @@ struct Beh {
 const DOWNLOAD: u64 = 1024 * 1024;
 const UPLOAD: usize = 30_000;
 const UPLOAD_FIRST: usize = 1_000;
+/// body of the origin's answer to a relayed request
+const RP_BODY: u64 = 2048;
+/// ReadMost: the client stops this far from the end of a download (the download task has handed its last chunk
+/// to the codec by then: transport 64 KiB + chunk being written 64 KiB + queued chunk 64 KiB)
+const TAIL_LEFT: u64 = 100 * 1024;
 
 const H2_PREFACE: &[u8] = b"PRI * HTTP/2.0\r\n\r\nSM\r\n\r\n";
 const F_DATA: u8 = 0;
@@ -154,12 +163,18 @@ impl std::task::Wake for Noop {
 
 /// everything that can be read right now; returns the number of bytes read
 fn read_available(io: &mut DuplexStream, view: &mut ClientView) -> usize {
+    read_at_most(io, view, usize::MAX)
+}
+
+/// ... but not more than `limit` octets
+fn read_at_most(io: &mut DuplexStream, view: &mut ClientView, limit: usize) -> usize {
     let w = std::task::Waker::from(Arc::new(Noop));
     let mut cx = Context::from_waker(&w);
     let mut total = 0;
     let mut buf = vec![0u8; 1 << 16];
-    while !view.eof && view.io_err.is_none() {
-        let mut rb = ReadBuf::new(&mut buf);
+    while !view.eof && view.io_err.is_none() && total < limit {
+        let n = buf.len().min(limit - total);
+        let mut rb = ReadBuf::new(&mut buf[..n]);
         match Pin::new(&mut *io).poll_read(&mut cx, &mut rb) {
             Poll::Pending => break,
             Poll::Ready(Ok(())) if rb.filled().is_empty() => view.eof = true,
@@ -188,6 +203,8 @@ struct Sess {
     kinds: Vec<String>,
     /// HTTP/1.1 has no flow control: the client stalls a download by not reading
     h1_stalled: bool,
+    /// reverse proxy: the origin is a real loopback socket - the session is given real time too
+    real_io: bool,
 }
 
 impl Sess {
@@ -259,6 +276,13 @@ impl Sess {
     async fn quiesce(&mut self) {
         loop {
             settle().await;
+            if self.real_io {
+                // what is on its way through the loopback interface arrives in real time, not in virtual time
+                for _ in 0..3 {
+                    std::thread::sleep(Duration::from_millis(2));
+                    settle().await;
+                }
+            }
             if self.proto == "h1" && self.h1_stalled {
                 return;
             }
@@ -307,6 +331,9 @@ impl Sess {
                 self.send(b"GET /1mb.bin HTTP/1.1\r\nHost: speed.localhost\r\n\r\n").await;
             } else if kind == "rq" {
                 self.send(b"GET / HTTP/1.1\r\nHost: ping.localhost\r\n\r\n").await;
+            } else if kind == "rp" {
+                self.h1_stalled = true;
+                self.send(b"GET /rp/file HTTP/1.1\r\nHost: rp.localhost\r\n\r\n").await;
             } else {
                 let mut out = format!("POST /upload.html HTTP/1.1\r\nHost: speed.localhost\r\nContent-Length: {}\r\n\r\n", UPLOAD).into_bytes();
                 out.extend(vec![0x55; UPLOAD_FIRST]);
@@ -334,10 +361,28 @@ impl Sess {
                 }
                 self.send(&out).await;
             }
-        } else if kind == "dl" {
+        } else if kind == "dl" || kind == "rp" {
             self.h1_stalled = false;
         } else {
             self.send(&vec![0x55; UPLOAD - UPLOAD_FIRST]).await;
+        }
+    }
+
+    /// HTTP/1.1 download: read up to TAIL_LEFT octets before the end and stall again
+    async fn read_most(&mut self, k: usize) {
+        loop {
+            settle().await;
+            let have = self.view.streams.get(&k).map(|s| if s.heads > 0 { s.body } else { 0 }).unwrap_or(0);
+            if have + TAIL_LEFT >= DOWNLOAD {
+                return;
+            }
+            let head_room = if self.view.streams.get(&k).map(|s| s.heads == 0).unwrap_or(true) { 4096 } else { 0 };
+            let want = (DOWNLOAD - TAIL_LEFT - have) as usize + head_room;
+            let n = read_at_most(&mut self.io, &mut self.view, want.min(1 << 16));
+            self.parse_h1();
+            if n == 0 && (self.view.eof || self.view.io_err.is_some()) {
+                return;
+            }
         }
     }
 
@@ -352,7 +397,11 @@ impl Sess {
     /// the class of stream k as the client sees it
     fn stream_class(&self, k: usize) -> &'static str {
         let Some(s) = self.view.streams.get(&k) else { return "none" };
-        let complete = if self.kinds[k - 1] == "dl" { s.heads > 0 && s.body == DOWNLOAD } else { s.heads > 0 };
+        let complete = match self.kinds[k - 1].as_str() {
+            "dl" => s.heads > 0 && s.body == DOWNLOAD,
+            "rp" => s.heads > 0 && s.body == RP_BODY,
+            _ => s.heads > 0,
+        };
         if self.proto == "h2" {
             if s.rst.is_some() {
                 "reset"
@@ -398,6 +447,58 @@ struct World {
     events: Vec<Value>,
     /// the codec is wrapped by the door (WindBegin / WindEnd are recorded); the tunnel builds its own
     wind_events: bool,
+    origin: Option<Origin>,
+}
+
+/// the origin server of the reverse proxy: a loopback socket
+struct Origin {
+    addr: SocketAddr,
+    /// answers written completely
+    written: Arc<std::sync::atomic::AtomicUsize>,
+}
+
+impl Origin {
+    fn start() -> Origin {
+        use std::io::{Read, Write};
+        let l = std::net::TcpListener::bind("127.0.0.1:0").expect("origin listener");
+        let addr = l.local_addr().unwrap();
+        let written = Arc::new(std::sync::atomic::AtomicUsize::new(0));
+        let w2 = written.clone();
+        std::thread::spawn(move || {
+            // one session, one exchange: the thread ends with the connection
+            if let Ok((mut c, _)) = l.accept() {
+                let _ = c.set_read_timeout(Some(Duration::from_secs(30)));
+                let mut head = Vec::new();
+                let mut b = [0u8; 1024];
+                while !head.windows(4).any(|w| w == b"\r\n\r\n") {
+                    match c.read(&mut b) {
+                        Ok(n) if n > 0 => head.extend_from_slice(&b[..n]),
+                        _ => return,
+                    }
+                }
+                // the head, then the body in two pieces, each a segment of its own: the relay is past the head (its
+                // DuplexPipe runs) when the body arrives; one piece ends up being written by the codec, the other queued
+                let _ = c.set_nodelay(true);
+                let head = format!("HTTP/1.1 200 OK\r\nContent-Length: {}\r\n\r\n", RP_BODY).into_bytes();
+                let half = vec![0x42u8; RP_BODY as usize / 2];
+                let mut ok = c.write_all(&head).is_ok();
+                for _ in 0..2 {
+                    std::thread::sleep(Duration::from_millis(25));
+                    ok &= c.write_all(&half).is_ok();
+                }
+                if ok {
+                    w2.fetch_add(1, std::sync::atomic::Ordering::SeqCst);
+                }
+                // keeps the connection open until the endpoint closes it
+                while let Ok(n) = c.read(&mut b) {
+                    if n == 0 {
+                        break;
+                    }
+                }
+            }
+        });
+        Origin { addr, written }
+    }
 }
 
 #[derive(Debug, Clone, PartialEq)]
@@ -420,9 +521,28 @@ impl World {
         let peer: SocketAddr = "127.0.0.1:40000".parse().unwrap();
         // HTTP/2: the transport never pushes back (flow control is what stalls a stream);
         // HTTP/1.1: the transport is the only window there is
-        let cap = if b.proto == "h2" { 8 << 20 } else { 1 << 16 };
+        let cap = if b.proto == "h2" { 8 << 20 } else if b.svc == "rproxy" { 256 } else { 1 << 16 };
         let (client, server) = tokio::io::duplex(cap);
-        let task = if b.svc == "tunnel" {
+        let mut origin = None;
+        let task = if b.svc == "rproxy" {
+            // reverse_proxy::listen over the HTTP/1.1 codec; the origin is a loopback socket that answers a
+            // head and RP_BODY octets and keeps its connection open
+            use trusttunnel::settings::*;
+            let o = Origin::start();
+            let settings = Settings::builder()
+                .listen_address("127.0.0.1:0").expect("address")
+                .listen_protocols(ListenProtocolSettings { http1: Some(Http1Settings::builder().build()), http2: None, quic: None })
+                .connection_establishment_timeout(Duration::from_secs(3600))
+                .tcp_connections_timeout(Duration::from_secs(3600))
+                .reverse_proxy(ReverseProxySettings::builder().server_address(o.addr).expect("origin address").path_mask("/rp".to_string()).build().expect("reverse proxy settings"))
+                .build().expect("settings");
+            let core = trusttunnel::core::Core::new(settings, None, tunnel_env::hosts_settings(), sd.clone()).map_err(|e| format!("core: {:?}", e))?;
+            origin = Some(o);
+            tokio::spawn(door::as_participant(1, async move {
+                let core = core;
+                door::serve_reverse_proxy(&core, server, peer, "rp.localhost".into()).await
+            }))
+        } else if b.svc == "tunnel" {
             // Tunnel::listen over HttpDownstream, as Core::on_new_tls_connection sets it up; destinations are scripted
             use trusttunnel::settings::*;
             use trusttunnel::verif::tunnel::{serve_tunnel, set_forwarder, VProto};
@@ -448,7 +568,7 @@ impl World {
             let wire = if b.proto == "h2" { door::Wire::Http2 } else { door::Wire::Http1 };
             tokio::spawn(door::as_participant(1, door::serve_session(sd.clone(), session_settings(), server, peer, service, wire, Duration::from_secs(3600))))
         };
-        let mut sess = Sess { proto: b.proto.clone(), io: client, view: ClientView::default(), task, kinds: b.kinds.clone(), h1_stalled: false };
+        let mut sess = Sess { proto: b.proto.clone(), io: client, view: ClientView::default(), task, kinds: b.kinds.clone(), h1_stalled: false, real_io: b.svc == "rproxy" };
         if b.proto == "h2" {
             // the connection-level window is opened once and for all: a stream stalls on its own window only
             let mut hello = H2_PREFACE.to_vec();
@@ -457,7 +577,7 @@ impl World {
             sess.send(&hello).await;
         }
         sess.quiesce().await;
-        let w = World { sd, sess, compl: None, compl_returned: false, events: Vec::new(), wind_events: b.svc != "tunnel" };
+        let w = World { sd, sess, compl: None, compl_returned: false, events: Vec::new(), wind_events: b.svc != "tunnel", origin };
         if door::receiver_count(&w.sd.lock().unwrap()) != 1 {
             return Err("the session did not register".into());
         }
@@ -469,6 +589,21 @@ impl World {
         match s.e.as_str() {
             "Open" => self.sess.open(s.k).await,
             "Release" => self.sess.release(s.k).await,
+            "ReadMost" => self.sess.read_most(s.k).await,
+            "IdleTimeout" => {
+                // time passes: the relay of an exchange that is over ends on its timeout, the idle timeout of the
+                // session fires (both are 3600 s; each timer is re-armed when it fires, hence the rounds)
+                for _ in 0..4 {
+                    // (a jump, not a sleep: under the paused clock a sleep moves time to the exact deadline of every timer
+                    // on the way, and the relay's "idle for longer than the timeout" is a strict comparison)
+                    tokio::time::advance(Duration::from_secs(3601)).await;
+                    self.sess.quiesce().await;
+                    self.events.extend(verif::drain_events().iter().filter_map(|l| serde_json::from_str::<Value>(l).ok()));
+                    if self.count("WindBegin") > 0 || self.sess.task.is_finished() {
+                        break;
+                    }
+                }
+            }
             "AckPing" => self.sess.ack_ping().await,
             "Submit" => self.sd.lock().unwrap().submit(),
             "CompletionBegin" => {
@@ -482,6 +617,19 @@ impl World {
             e => return Err(format!("unknown event {}", e)),
         }
         self.sess.quiesce().await;
+        if let (Some(o), "Open") = (&self.origin, s.e.as_str()) {
+            // the origin's answer travels in real time
+            let t0 = std::time::Instant::now();
+            while o.written.load(std::sync::atomic::Ordering::SeqCst) == 0 && t0.elapsed() < Duration::from_secs(10) {
+                self.sess.quiesce().await;
+            }
+            if o.written.load(std::sync::atomic::Ordering::SeqCst) == 0 {
+                return Err("the request did not reach the origin".into());
+            }
+            for _ in 0..3 {
+                self.sess.quiesce().await;
+            }
+        }
         if let Some(f) = self.compl.as_mut() {
             if let Poll::Ready(()) = futures::poll!(f.as_mut()) {
                 self.compl = None;
@@ -554,7 +702,7 @@ fn compare(proto: &str, o: &Obs, p: &Post) -> Option<(&'static str, String)> {
             // a stream opened inside the GOAWAY window is discarded: reset, or never answered
             "refused" => matches!(got, "reset" | "unanswered"),
             // an upload has no response yet: the client has seen nothing of the stream
-            "open" => matches!(got, "open" | "unanswered"),
+            "open" | "held" => matches!(got, "open" | "unanswered"),
             // ended by the close of the connection: how much of it was delivered is left open
             "cut" => matches!(got, "cut" | "short" | "done" | "unanswered"),
             w => got == w,
@@ -586,6 +734,9 @@ async fn replay_one(b: &Beh, probe: bool) -> Result<(), (usize, &'static str, St
         w.apply(s).await.map_err(|e| (i, "harness", e, Value::Null))?;
         let o = w.observe(b.kinds.len());
         if probe {
+            for e in w.events.iter().filter(|e| e["ev"] == "XC" || e["ev"] == "TOD") {
+                println!("     {}", e);
+            }
             println!("  {:>2} {:<18} {}", i, events_of(b)[i], obs_json(&o));
         }
         if let Some(p) = &s.post {
@@ -614,10 +765,17 @@ fn mode_replay(rep: &mut Report, vectors: &str) {
         let sub = b.steps.iter().position(|s| s.e == "Submit");
         let in_flight = sub.map(|i| i > 0 && b.steps[i - 1].post.as_ref().map(|p| p.st.iter().any(|x| x == "open")).unwrap_or(false)).unwrap_or(false);
         let window = b.steps.iter().any(|s| s.post.as_ref().map(|p| p.st.iter().any(|x| x == "refused")).unwrap_or(false));
-        if in_flight || window {
+        if in_flight || window || b.steps.iter().any(|s| s.e == "IdleTimeout" || s.e == "ReadMost") {
             rep.nontrivial(key.clone());
         }
         rep.count(&format!("behaviours_{}_{}", b.proto, b.svc), 1);
+        // the notification finds a wind-down already in progress (begun by the idle timeout) and not finished
+        let resumed = sub.map(|i| i > 0 && b.steps[i - 1].post.as_ref().map(|p| p.ph == "wind").unwrap_or(false)
+                                   && b.steps[i].post.as_ref().map(|p| p.ph == "wind").unwrap_or(false)).unwrap_or(false);
+        if resumed { rep.count("witness_notification_during_idle_wind_down", 1); }
+        if b.steps.iter().any(|s| s.post.as_ref().map(|p| p.st.iter().any(|x| x == "held")).unwrap_or(false)) {
+            rep.count("witness_tail_held_by_the_codec", 1);
+        }
         if in_flight { rep.count("witness_in_flight_at_submission", 1); }
         if window { rep.count("witness_stream_in_goaway_window", 1); }
         if b.steps.iter().any(|s| s.post.as_ref().map(|p| p.ph == "wind" && p.compl == "waiting").unwrap_or(false)) {
@@ -1007,6 +1165,94 @@ fn mode_h3(rep: &mut Report, vectors: &str) {
     rep.count("tlc_behaviours_replayed", h3.len() as u64);
 }
 
+// ------------------------------------------------------------------------------------------
+// the directed schedule of QuicLocks.tla: graceful_shutdown and write between their two locks
+
+/// One HTTP/3 speedtest session with a download in flight. The `write` of the download task is parked at
+/// its entry; the shutdown is submitted and the session task is parked inside
+/// `QuicSocket::graceful_shutdown` between its two lock acquisitions; the write is let go (it takes its first
+/// mutex and reaches for the second); then the session task is let go. With one global lock order both
+/// finish: the client is told, completion() returns. With the two orders of the code as it was the two
+/// worker threads wait for each other for good.
+fn mode_locks(rep: &mut Report) {
+    use door::sync;
+    const GS: &str = "quic_socket:graceful_shutdown:between_locks";
+    const WR: &str = "quic_socket:write:enter";
+    let rt = tokio::runtime::Builder::new_multi_thread().worker_threads(4).thread_name("endpoint").enable_all().build().unwrap();
+    rep.eval();
+    rep.nontrivial("locks:graceful_shutdown|write");
+    let sd = Shutdown::new();
+    verif::start_recording();
+    sync::reset();
+    sync::arm(WR);
+    sync::arm(GS);
+    let setup = (|| -> Result<H3World, String> {
+        let (addr, listen) = start_h3_endpoint(&rt, sd.clone())?;
+        let conn = H3Conn::connect(addr, &ClientOpts { sni: Some("speed.localhost"), handshake_budget: BUDGET, ..Default::default() }).map_err(|e| format!("QUIC handshake: {:?}", e))?;
+        let mut w = H3World { sd: sd.clone(), listen, conn, sids: BTreeMap::new(), compl_returned: Default::default(), compl_begun: false, events: Vec::new(), dest_port: 0 };
+        let sd2 = sd.clone();
+        if !w.until(BUDGET, |_| sd2.try_lock().map(|g| door::receiver_count(&g) >= 2).unwrap_or(false)) {
+            return Err("the HTTP/3 session did not register".into());
+        }
+        let sid = w.conn.request(&request_headers("GET", "https://speed.localhost/1mb.bin", &[]), true)?;
+        w.sids.insert(1, sid);
+        // the download task has answered and is about to write its first chunk: parked at the entry of write()
+        if !w.until(BUDGET, |_| sync::wait_arrived(WR, Duration::from_millis(1))) {
+            return Err("the download did not reach QuicSocket::write".into());
+        }
+        Ok(w)
+    })();
+    let mut w = match setup {
+        Ok(w) => w,
+        Err(e) => {
+            sync::reset();
+            rep.note(format!("lock schedule not run: {}", e));
+            rep.count("locks_not_run", 1);
+            return;
+        }
+    };
+    w.sd.lock().unwrap().submit();
+    let flag = w.compl_returned.clone();
+    let sd3 = w.sd.clone();
+    #[allow(clippy::await_holding_lock)]
+    std::thread::spawn(move || {
+        futures::executor::block_on(async move { sd3.lock().unwrap().completion().await });
+        flag.store(true, std::sync::atomic::Ordering::SeqCst);
+    });
+    // the session task is inside graceful_shutdown, holding its first mutex
+    let gs_parked = w.until(BUDGET, |_| sync::wait_arrived(GS, Duration::from_millis(1)));
+    // the write goes for its two mutexes
+    sync::release(WR);
+    // (with one global order the write waits for its FIRST mutex and the parked thread never sees both taken: the wait is bounded)
+    let crossed = gs_parked && w.until(Duration::from_secs(1), |_| sync::wait_both_locked(GS, Duration::from_millis(1)));
+    sync::release(GS);
+    rep.count("locks_graceful_shutdown_parked", gs_parked as u64);
+    rep.count("locks_both_mutexes_taken_by_two_threads", crossed as u64);
+    let finished = w.until(BUDGET, |w| w.told() && w.compl_returned.load(std::sync::atomic::Ordering::SeqCst));
+    if !gs_parked {
+        rep.violation("winddown:h3:locks:no-wind-down", "the session did not enter QuicSocket::graceful_shutdown after the submission",
+                      json!({"kind": "locks", "told": w.told(), "completion_returned": w.compl_returned.load(std::sync::atomic::Ordering::SeqCst)}));
+    } else if !finished {
+        let told = w.told();
+        let compl = w.compl_returned.load(std::sync::atomic::Ordering::SeqCst);
+        rep.violation("winddown:h3:locks:deadlock",
+                      format!("graceful_shutdown (session task) and write (download task) of one QuicSocket were each let go after its first lock: {} s later the client has {}been told and completion() has {}returned{}",
+                              BUDGET.as_secs(), if told { "" } else { "not " }, if compl { "" } else { "not " },
+                              if crossed { " - the thread parked in graceful_shutdown saw both mutexes (quic_conn, h3_conn) taken: each thread holds one and waits for the other" } else { "" }),
+                      json!({"kind": "locks", "schedule": ["write parked at entry", "submit", "graceful_shutdown parked after its first lock", "write released: takes its first lock, waits for the second",
+                                                           "graceful_shutdown released: waits for its second lock"],
+                             "threads": {"session task (graceful_shutdown)": "holds its first mutex, blocked in lock() of the second",
+                                         "download task (write)": if crossed { "holds h3_conn, blocked in lock() of quic_conn" } else { "unknown" }},
+                             "both_mutexes_taken": crossed, "told": told, "completion_returned": compl}));
+    } else {
+        rep.count("locks_schedule_finished", 1);
+    }
+    sync::reset();
+    w.listen.abort();
+    // worker threads that wait for each other never come back: dropping the runtime would wait for them
+    std::mem::forget(rt);
+}
+
 fn mode_probe(script: &str) {
     for line in std::fs::read_to_string(script).expect("script").lines().filter(|l| l.starts_with('{')) {
         let b: Beh = serde_json::from_str(line).expect("script line");
@@ -1021,7 +1267,7 @@ fn mode_probe(script: &str) {
 fn main() {
     let mode = arg_or("--mode", "replay");
     if mode == "probe" {
-        logcap::install();
+        h3env::install_logger();
         mode_probe(&arg("--script").expect("--script"));
         return;
     }
@@ -1037,6 +1283,10 @@ fn main() {
         "h3" => {
             h3env::install_logger();
             mode_h3(&mut rep, &arg("--vectors").expect("--vectors"))
+        }
+        "locks" => {
+            h3env::install_logger();
+            mode_locks(&mut rep)
         }
         m => panic!("unknown mode {}", m),
     }
